@@ -311,7 +311,7 @@ def pyRange (start stop step : Int) : List Int :=
     if step > 0 then (if start < stop then ((stop - start + step - 1) / step).toNat else 0)
     else if step < 0 then (if start > stop then ((start - stop - step - 1) / (-step)).toNat else 0)
     else 0
-  (List.range count).map (fun k => start + step * (k : Int))
+  (List.range count).map (fun (k : Nat) => start + step * (k : Int))
 
 def childNode (n : Node) (p : Part) (pathSuffix : Str) (v : J) : Node :=
   ⟨n.parts ++ [p], n.path ++ pathSuffix, v⟩
